@@ -207,6 +207,49 @@ def translate(repo: Path) -> dict:
     if not rename_before_validate:
         raise T.TranslateError("_complete_pack: the pack is no longer renamed into place before validation "
                                "(F13 repaired?) - update the FS program of the model")
+    # -- statement structure of _complete_pack between "pack under its final name" and "validated"
+    rename_stmt = next((st for st in cp.body if isinstance(st, ast.Expr) and ast.unparse(st).startswith("os.rename(path, target_pack_path)")), None)
+    val_try = next((st for st in cp.body if isinstance(st, ast.Try) and "check_length_and_checksum" in ast.unparse(st)), None)
+    if rename_stmt is None or val_try is None:
+        raise T.TranslateError("_complete_pack: `os.rename(path, target_pack_path)` / the validation try are not top-level statements any more")
+    between = cp.body[cp.body.index(rename_stmt) + 1: cp.body.index(val_try)]
+    idx_write_guarded = False
+    unguarded_calls = 0
+    bitmap_block = False
+    for st in between:
+        src_ = ast.unparse(st)
+        if isinstance(st, ast.Try) and "write_pack_index" in src_:
+            idx_write_guarded = any(h.type is not None and ast.unparse(h.type) == "BaseException" and "os.remove(target_pack_path)" in ast.unparse(h)
+                                    and isinstance(h.body[-1], ast.Raise) for h in st.handlers)
+            if not idx_write_guarded:
+                unguarded_calls += 1
+        elif isinstance(st, ast.If) and "self.pack_write_bitmaps" in ast.unparse(st.test):
+            bitmap_block = True
+        elif isinstance(st, ast.Assign) and src_.startswith("final_pack = Pack("):
+            continue        # the constructor opens nothing
+        elif any(isinstance(n, ast.Call) for n in ast.walk(st)):
+            unguarded_calls += 1
+    after_val = cp.body[cp.body.index(val_try) + 1:]
+    for st in after_val:
+        if any(isinstance(n, ast.Call) and ast.unparse(n.func) not in ("self._add_cached_pack", "os.path.basename") for n in ast.walk(st)):
+            unguarded_calls += 1
+    vh = next(h for h in val_try.handlers if h.type is not None and ast.unparse(h.type) == "BaseException")
+    vsrc = ast.unparse(vh)
+    rollback_idx_first = "os.remove(target_index_path)" in vsrc and "os.remove(target_pack_path)" in vsrc and \
+        vsrc.index("os.remove(target_index_path)") < vsrc.index("os.remove(target_pack_path)")
+    removes = [n for n in ast.walk(vh) if isinstance(n, ast.Call) and ast.unparse(n.func) == "os.remove"]
+
+    def _own_guard(call):
+        # the removal sits alone under `with suppress(OSError)`
+        for w_ in ast.walk(vh):
+            if isinstance(w_, ast.With) and any(call is n for n in ast.walk(w_)) and len(w_.body) == 1 and \
+                    "suppress(OSError)" in ast.unparse(w_.items[0]):
+                return True
+        return False
+    in_finally = any(isinstance(n, ast.Try) and n.finalbody for n in ast.walk(vh))
+    rollback_independent = bool(removes) and all(_own_guard(c_) for c_ in removes) and in_finally
+    passes_refs = any("refs=" in ast.unparse(c_) for q in ("DiskObjectStore.add_thin_pack", "DiskObjectStore.add_pack")
+                      for c_ in _calls(T.find_def(stt, q), "self._complete_pack"))
     addp = T.find_def(stt, "DiskObjectStore.add_pack")
     abort = T.find_def(addp, "abort")
     abort_removes = "os.remove(path)" in ast.unparse(abort)
@@ -227,6 +270,8 @@ def translate(repo: Path) -> dict:
     # objects added one at a time while the iterator is being drained = no all-or-nothing
     mem_incremental = any(isinstance(n, ast.For) and "PackInflater.for_pack_data" in ast.unparse(n.iter)
                           and "self.add_object(obj)" in ast.unparse(n) for n in ast.walk(mcommit))
+    mem_deletes = any(isinstance(n, ast.Delete) for n in ast.walk(mcommit)) or any(
+        x in msrc for x in ("self._data.pop", "__delitem__", "self._data.clear", "del self"))
     # -- the stores ask their indexers / inflaters to refuse deltas onto their own chain
     stores_reject = chain_check and all("reject_delta_cycles=True" in ast.unparse(n) for n in (thin, addp, cp, mcommit)) and \
         "base_sha=base_sha" in ast.unparse(wr)
@@ -318,6 +363,17 @@ def rollbackRemovesPack : Bool := {_lean_bool(rollback_pack)}
 def rollbackRemovesIdx : Bool := {_lean_bool(rollback_idx)}
 /-- the handler cannot be cut short by `final_pack.close()` raising (it is not a bare statement of the handler) -/
 def rollbackCloseGuarded : Bool := {_lean_bool(close_guarded)}
+/-- `_complete_pack` between `os.rename(path, target_pack_path)` and the validation `try`: the index is written inside a `try`
+whose `except BaseException` removes the pack again; statements with calls that are under no such handler (the `Pack(...)`
+constructor and the bitmap block aside); the bitmap block exists / the ingestion paths pass `refs` (only then it runs) -/
+def idxWriteGuarded : Bool := {_lean_bool(idx_write_guarded)}
+def unguardedCallsAfterInstall : Nat := {unguarded_calls}
+def bitmapBlockAfterInstall : Bool := {_lean_bool(bitmap_block)}
+def ingestPassesRefs : Bool := {_lean_bool(passes_refs)}
+/-- rollback handler of the validation: the index is removed before the pack; every removal is attempted on its own
+(`with suppress(OSError)` each, chained by try/finally) -/
+def rollbackIdxFirst : Bool := {_lean_bool(rollback_idx_first)}
+def rollbackIndependent : Bool := {_lean_bool(rollback_independent)}
 /-- `DiskObjectStore.add_pack`: `abort()` removes the temporary file; `commit()` removes it when indexing fails -/
 def abortRemovesTmp : Bool := {_lean_bool(abort_removes)}
 def commitFailureRemovesTmp : Bool := {_lean_bool(commit_cleans)}
@@ -328,6 +384,8 @@ def thinFailureRemovesTmp : Bool := {_lean_bool(thin_cleans)}
 /-- `MemoryObjectStore.add_pack.commit`: `p.check()` precedes the inflater; objects are added while the inflater is drained -/
 def memChecksTrailer : Bool := {_lean_bool(mem_checks)}
 def memAddsIncrementally : Bool := {_lean_bool(mem_incremental)}
+/-- `MemoryObjectStore.add_pack.commit` removes objects on some path (a "rollback" by deletion) -/
+def memCommitDeletes : Bool := {_lean_bool(mem_deletes)}
 /-- `_follow_chain` raises ApplyDeltaError for `sha in on_chain` and add_thin_pack, add_pack, _complete_pack and
 MemoryObjectStore all pass `reject_delta_cycles=True` -/
 def storesRejectDeltaCycles : Bool := {_lean_bool(stores_reject)}
@@ -952,9 +1010,13 @@ def _ingest_one(sut: _StoreUnderTest, path: str, data: bytes, expect_ids) -> dic
     else:
         changed = []
         if after != sut.before_ids:
-            changed.append("ids(same store): +" + ",".join(i.decode()[:12] for i in set(after) - set(sut.before_ids)))
+            changed.append("ids(same store): +" + ",".join(i.decode()[:12] for i in set(after) - set(sut.before_ids)) +
+                           " -" + ",".join(i.decode()[:12] for i in set(sut.before_ids) - set(after)))
         if fresh_after != sut.before_ids:
-            changed.append("ids(fresh store): +" + ",".join(i.decode()[:12] for i in set(fresh_after) - set(sut.before_ids)))
+            changed.append("ids(fresh store): +" + ",".join(i.decode()[:12] for i in set(fresh_after) - set(sut.before_ids)) +
+                           " -" + ",".join(i.decode()[:12] for i in set(sut.before_ids) - set(fresh_after)))
+        if set(sut.before_ids) - set(after) or set(sut.before_ids) - set(fresh_after):
+            rep["prestate_lost"] = sorted(i.decode() for i in (set(sut.before_ids) - set(after)) | (set(sut.before_ids) - set(fresh_after)))
         for i in expect_ids:
             ib = i.encode()
             if ib not in sut.before_ids:
@@ -1377,14 +1439,18 @@ def _classify_ingest(ctx, stream, case, kind, path, rep, m, pack_ids):
         installed = sorted(f.rsplit(".", 1)[-1] for f in new) == ["idx", "pack"] and all(f.startswith("objects/pack/pack-") for f in new)
         if rep.get("changed"):
             only_partial = kind == "mem" and all(c.startswith("ids(") or " in store` is now true" in c for c in rep["changed"])
-            if only_partial:
+            if rep.get("prestate_lost"):
+                cls = f"failed-ingest-removed-prestate-object:{kind}"
+            elif only_partial:
                 cls = "memory-store-partial-ingest-visible"
             elif kind == "disk" and rep.get("exc") == "BufferError" and installed and not rep.get("gonefiles"):
                 cls = "disk-validation-rollback-skipped-by-BufferError"
             else:
                 cls = f"failed-ingest-visible:{kind}-{path}"
-            ctx.oracle_fail(stream, dict(case, changed=rep["changed"], exc=rep.get("exc"), newfiles=new),
-                            f"FAILED ingest ({rep.get('exc')}) left new objects visible: {rep['changed']} files {new}", cls)
+            ctx.oracle_fail(stream, dict(case, changed=rep["changed"], exc=rep.get("exc"), newfiles=new, prestate_lost=rep.get("prestate_lost")),
+                            (f"FAILED ingest ({rep.get('exc')}) REMOVED objects the store held before: {rep.get('prestate_lost')} ({rep['changed']})"
+                             if rep.get("prestate_lost") else
+                             f"FAILED ingest ({rep.get('exc')}) left new objects visible: {rep['changed']} files {new}"), cls)
         if new or rep.get("gonefiles"):
             if kind == "disk" and rep.get("exc") == "BufferError" and installed and not rep.get("gonefiles") and rep.get("changed"):
                 pass    # reported just above (same defect: the rollback was skipped)
@@ -1515,6 +1581,18 @@ def attacks(rng):
                                                         ("raw", raw_entry(7, make_delta(ybig, extb), base=obj_name(3, ybig)), 3, extb),
                                                         ("raw", raw_entry(7, make_delta(extb, ybig), base=obj_name(3, extb)), 3, ybig)]))
     add("ofs:identity-delta", build_pack("a", [("full", 3, blob), ("ofs", 0, blob)]))
+    # packs that pass the trailer check, are refused later, and CONTAIN COPIES of objects the store already holds (before and after
+    # the offending entry, as full objects and as deltas resolving to existing ids): the refusal must leave the pre-state EXACTLY
+    wpre = b"a second object the store holds\n"
+    zfull = extb + b"basis of a delta\n"
+    offenders = {"unresolved": ("raw", raw_entry(7, d12, base=b"\x11" * 20), None, None),
+                 "garbage-tree": ("full", 2, tree_bad),
+                 "bad-delta": ("raw", raw_entry(7, enc_varint(99) + make_delta(zfull, wpre)[1:], base=obj_name(3, zfull)), None, None)}
+    for oname, off_item in offenders.items():
+        add(f"prestate:copies-around-{oname}", build_pack("a", [("full", 3, extb), ("full", 3, zfull), ("ofs", 1, wpre), off_item, ("full", 3, wpre), ("full", 3, extb)]),
+            pre=[(3, extb), (3, wpre)])
+        add(f"prestate:copies-before-{oname}", build_pack("a", [("full", 3, wpre), ("full", 3, zfull), ("ref", 1, extb), off_item]), pre=[(3, extb), (3, wpre)])
+        add(f"prestate:copies-after-{oname}", build_pack("a", [off_item, ("full", 3, zfull), ("ofs", 1, extb), ("full", 3, wpre)]), pre=[(3, extb), (3, wpre)])
     add("ref:thin-then-missing", build_pack("a", [("ref", ("ext", 0), extb + b"x"), ("raw", raw_entry(7, d12, base=b"\x11" * 20), None, None)],
                                             ext=[(3, extb)]), pre=[(3, extb)])
     # zlib: trailing garbage, over-long output, size header disagreeing with payload
@@ -2302,6 +2380,200 @@ def _stream_bombs(ctx):
 
 
 # ------------------------------------------------------------------------------------------------
+# fault sequences: a one-shot fault at EVERY interposed system call of every ingestion path, store options that add calls ON
+
+FAULT_OPTIONS = {
+    "default": {},
+    "fsync": {"fsync_object_files": True},
+    "shared": {"shared": "group"},
+    "idx-v1": {"pack_index_version": 1},
+    "idx-v3": {"pack_index_version": 3},
+    "fsync+shared+level0": {"fsync_object_files": True, "shared": "group", "pack_compression_level": 0, "loose_compression_level": 0},
+    "midx": {"midx": True},
+}
+
+
+def _fault_packs():
+    blob, tree, commit, tag = sample_objects()
+    b2 = blob + b"second line\n"
+    first = raw_entry(3, blob)
+    return {
+        "valid": (build_pack("v", [("full", 3, blob), ("ofs", 0, b2), ("full", 2, tree)]).data, False),
+        "valid-full": (build_pack("f", [("full", 3, blob), ("full", 3, b2), ("full", 2, tree)]).data, False),
+        "garbage-tree": (build_pack("g", [("full", 3, blob), ("full", 2, b"1x0644 a\0" + b"\x22" * 20)]).data, True),
+        "unresolved-delta": (build_pack("u", [("full", 3, blob), ("raw", raw_entry(7, make_delta(blob, b2), base=b"\x11" * 20), None, None)]).data, True),
+        "bad-delta": (build_pack("d", [("raw", first, 3, blob), ("raw", raw_entry(6, enc_varint(99) + make_delta(blob, b2)[1:], base=enc_ofs(len(first))),
+                                                                         None, None)]).data, True),
+    }
+
+
+def _fault_store(root: str, opts: dict):
+    """pre-state: one loose object and one pack; returns a NEW store object with the options on"""
+    import warnings
+    warnings.simplefilter("ignore")
+    from dulwich.file import PERM_GROUP
+    from dulwich.object_store import DiskObjectStore
+    from dulwich.objects import Blob
+    kw = {k: v for k, v in opts.items() if k not in ("shared", "midx")}
+    if opts.get("shared"):
+        kw["shared_perm"] = PERM_GROUP
+    st = DiskObjectStore.init(os.path.join(root, "objects"))
+    st.add_object(Blob.from_string(b"pre-existing loose object\n"))
+    _do_ingest(st, "addpack", build_pack("p", [("full", 3, b"pre-existing packed object\n"), ("full", 3, b"another one\n")]).data)
+    if opts.get("midx"):
+        st.write_midx()
+    st.close()
+    return DiskObjectStore(os.path.join(root, "objects"), **kw)
+
+
+_INGEST_DONE: list = []
+
+
+def _fault_ingest(store, root: str, path: str, data: bytes, opts: dict):
+    import io
+    if path == "addobjects":
+        from dulwich.objects import Blob
+        store.add_objects([(Blob.from_string(b"object %d given to add_objects\n" % i), None) for i in range(3)])
+    elif path == "receive":
+        from dulwich.protocol import ReceivableProtocol, pkt_line
+        from dulwich.repo import Repo
+        from dulwich.server import DictBackend, ReceivePackHandler
+
+        class _R:       # the handler only needs these of a repo
+            pass
+        repo = Repo(root)
+        try:
+            repo.object_store.close()
+            repo.object_store = store
+            _orig = store.add_thin_pack
+
+            def _noting(*aa, **kw):
+                r = _orig(*aa, **kw)
+                _INGEST_DONE.append(1)
+                return r
+            store.add_thin_pack = _noting
+            cmds = pkt_line(b"0" * 40 + b" " + obj_name(3, b"hello world\n").hex().encode() + b" refs/heads/x\x00report-status\n") + b"0000"
+            out = bytearray()
+            proto = ReceivableProtocol(io.BytesIO(cmds + data).read, lambda d: out.extend(d) or len(d))
+            ReceivePackHandler(DictBackend({b"/": repo}), [b"/"], proto, stateless_rpc=True).handle()
+            if b"unpack ok" not in bytes(out):
+                raise OSError("receive-pack answered: " + bytes(out)[:80].decode("latin1"))
+        finally:
+            repo.refs.close() if hasattr(repo.refs, "close") else None
+    else:
+        _do_ingest(store, path, data)
+
+
+def _stream_faults(ctx):
+    import errno
+    import shutil
+    import warnings
+    warnings.simplefilter("ignore")
+    from .. import sched
+    stream = "faults"
+    rng = ctx.rng
+    packs = _fault_packs()
+    kinds = [("EIO", lambda: OSError(errno.EIO, "injected EIO")), ("ENOSPC", lambda: OSError(errno.ENOSPC, "injected ENOSPC")),
+             ("EPERM", lambda: PermissionError(errno.EPERM, "injected EPERM")), ("KeyboardInterrupt", lambda: KeyboardInterrupt())]
+    combos = []
+    for oname in FAULT_OPTIONS:
+        for path in ("thin", "addpack", "packdata", "addobjects", "receive"):
+            for pname in packs:
+                if path == "addobjects" and pname != "valid":
+                    continue
+                # add_pack_data(len(pd), pd.iter_unpacked()) does not take delta entries at all: full objects only
+                if (path == "packdata") != (pname == "valid-full") and (path == "packdata" or pname == "valid-full") and pname != "garbage-tree":
+                    continue
+                combos.append((oname, path, pname))
+    if not ctx.thorough:
+        # every combination of path x pack with the default and one other option set; the other option sets on the install paths
+        combos = [c for i, c in enumerate(combos) if c[0] == "default" or (c[1] in ("thin", "addpack", "receive") and (i + ctx.seed) % 3 == 0)]
+    n_runs = 0
+    for ci, (oname, path, pname) in enumerate(combos):
+        data, hostile = packs[pname]
+        opts = FAULT_OPTIONS[oname]
+
+        def one(fail_at):
+            root = os.path.join(str(ctx.scratch), f"flt{ci}-{len(os.listdir(ctx.scratch))}")
+            os.makedirs(root)
+            if path == "receive":
+                from dulwich.repo import Repo
+                Repo.init_bare(root).close()
+                shutil.rmtree(os.path.join(root, "objects"))
+            st = _fault_store(root, opts)
+            before_ids, _ = _visible(os.path.join(root, "objects"))
+            before = _listing(root)
+            err = None
+            del _INGEST_DONE[:]
+            with sched.Recorder(root, None, reads=True, fail_at=fail_at) as rec:
+                try:
+                    _fault_ingest(st, root, path, data, opts)
+                except BaseException as e:       # noqa: BLE001 — the outcome, KeyboardInterrupt included (it is the injected one)
+                    err = e
+            try:
+                st.close()
+            except Exception:
+                pass
+            after_ids, bad = _visible(os.path.join(root, "objects"))
+            newf = [p_ for p_, _s in _listing(root) if (p_, _s) not in before]
+            shutil.rmtree(root, ignore_errors=True)
+            return err, rec.events, before_ids, after_ids, bad, newf, bool(_INGEST_DONE)
+        err0, events0, *_ = one({})
+        n_calls = len(events0)
+        ctx.count(stream + ".program", (oname, path, pname), True, f"{oname}:{path}:{pname}:{n_calls} calls:{'raises ' + type(err0).__name__ if err0 else 'ok'}")
+        if (err0 is None) == hostile and path != "addobjects":
+            ctx.oracle_fail(stream, {"options": oname, "path": path, "pack": pname, "input": hx(data)},
+                            f"without any fault: {'a hostile pack is accepted' if hostile else 'a valid pack is refused: ' + repr(err0)[:120]}", "faults-baseline")
+            continue
+        for k in range(n_calls):
+            for kname, mk in kinds:
+                if kname != "EIO" and not ctx.thorough and (k + ci + len(kname)) % 4:
+                    continue
+                if not ctx.thorough and kname == "EIO" and oname != "default" and (k + ci) % 2:
+                    continue
+                n_runs += 1
+                err, events, before_ids, after_ids, bad, newf, ingested = one({k: mk()})
+                call = events[k][1] if k < len(events) else "?"
+                where = [os.path.basename(x) for x in (events[k][2] if k < len(events) else ())]
+                case = {"options": oname, "path": path, "pack": pname, "input": hx(data), "fault": kname, "at_call": k,
+                        "call": call, "on": where, "calls": [[e[1], [os.path.basename(x) for x in e[2]], e[3]] for e in events][:80],
+                        "raised": type(err).__name__ if err else None}
+                ctx.count(stream, (oname, path, pname, k, kname), True, f"{path}:{pname}:{kname}@{call}:{'raised' if err else 'survived'}")
+                new_pairs = sorted(f for f in newf if f.endswith(".pack") and (f[:-5] + ".idx") in set(newf) | set())
+                if err is not None and ingested and not hostile:
+                    # receive-pack: the pack had been ingested completely when the fault hit the ref updates — the objects stay
+                    # (unreferenced), as with git; they must be consistent
+                    for b in bad:
+                        ctx.oracle_fail(stream, dict(case, detail=b), f"after a {kname} in the ref phase of receive-pack: {b}", "fault-leaves-inconsistent-store:" + b.split(" ")[0])
+                    continue
+                if err is not None:
+                    if after_ids != before_ids:
+                        in_rollback = call in ("remove", "unlink") and where and where[0].startswith("pack-") and where[0].endswith(".pack") and \
+                            any(e_[1] in ("rename", "replace") and os.path.basename(e_[2][1]) == where[0] for e_ in events[:k])
+                        ctx.oracle_fail(stream, dict(case, new=[i.decode() for i in set(after_ids) - set(before_ids)],
+                                                     gone=[i.decode() for i in set(before_ids) - set(after_ids)], newfiles=newf),
+                                        f"{path} of the {pname} pack raised {type(err).__name__} after a {kname} at call {k} ({call} {where}) but a fresh "
+                                        f"DiskObjectStore sees a different object set: +{len(set(after_ids) - set(before_ids))} -{len(set(before_ids) - set(after_ids))}; "
+                                        f"files left: {newf}",
+                                        "fault-at-rollback-unlink-of-pack-skips-unlink-of-index" if in_rollback else
+                                        f"fault-leaves-{'hostile-' if hostile else ''}pack-visible:{call}")
+                        continue
+                    elif new_pairs:
+                        ctx.oracle_fail(stream, dict(case, newfiles=newf), f"a pack+index pair was left behind after the failed call: {new_pairs}",
+                                        f"fault-leaves-pack-pair:{call}")
+                else:
+                    if hostile:
+                        ctx.oracle_fail(stream, dict(case, newfiles=newf), f"with a {kname} at call {k} ({call} {where}) the hostile {pname} pack was ACCEPTED",
+                                        f"fault-makes-hostile-pack-accepted:{call}")
+                    if not set(before_ids) <= set(after_ids):
+                        ctx.oracle_fail(stream, case, "the call succeeded but pre-existing objects are gone", "fault-loses-prestate")
+                for b in bad:
+                    ctx.oracle_fail(stream, dict(case, detail=b, newfiles=newf), f"after a {kname} at call {k} ({call} {where}): {b}",
+                                    "fault-leaves-inconsistent-store:" + b.split(" ")[0])
+    ctx.extra_cov["fault_runs"] = n_runs
+
+
+# ------------------------------------------------------------------------------------------------
 # long-lived readers: what a FAILED read leaves behind in a caching reader object (packed-refs)
 
 def _refs_dir(root: str, packed: bytes, loose: dict):
@@ -2592,6 +2864,200 @@ def _stream_refs_stateful(ctx, w):
                                             f"packed-refs-damage-laundered:{op[0]}")
                 if got.startswith("err "):
                     any_failed = True
+
+
+# ------------------------------------------------------------------------------------------------
+# long-lived readers, continued: an Index object after a failed read(); a Pack (through its store) after a failed first access
+
+def _index_entries(ix):
+    from dulwich.index import ConflictedIndexEntry
+    out = []
+    for k in ix:
+        e = ix[k]
+        out.append([k.hex(), "conflict" if isinstance(e, ConflictedIndexEntry) else e.sha.decode("latin1")])
+    return sorted(out)
+
+
+def impl_index_stateful(a):
+    """ONE Index object: (mode reread) it has read the good file, the file is replaced by the damaged one, read() again;
+    (mode first) Index(path, read=False), read() on the damaged file.  Then: its entries, write(), and what the written file holds."""
+    import shutil
+    import tempfile
+    import warnings
+    warnings.simplefilter("ignore")
+    from dulwich.index import Index
+    out = []
+    root = tempfile.mkdtemp(prefix="ixs", dir=a["scratch"])
+    try:
+        p = os.path.join(root, "index")
+        good = unhx(a["original"])
+        with open(p, "wb") as f:
+            f.write(good)
+        good_entries = _index_entries(Index(p))
+        for run in a["runs"]:
+            dmg = unhx(run["content"])
+            rep = {"good": good_entries}
+            with open(p, "wb") as f:
+                f.write(good)
+            if run["mode"] == "reread":
+                ix = Index(p)
+                rep["pre"] = _index_entries(ix)
+            else:
+                ix = Index(p, read=False)
+                rep["pre"] = []
+            with open(p, "wb") as f:
+                f.write(dmg)
+            try:
+                ix.read()
+                rep["read"] = "ok"
+            except Exception as e:
+                rep["read"] = "err " + type(e).__name__
+            try:
+                Index(p)
+                rep["fresh"] = "ok"
+            except Exception as e:
+                rep["fresh"] = "err " + type(e).__name__
+            rep["entries_after"] = _index_entries(ix)
+            try:
+                ix.write()
+                rep["write"] = "ok"
+                try:
+                    rep["written"] = _index_entries(Index(p))
+                except Exception as e:
+                    rep["written"] = "unreadable " + type(e).__name__
+            except Exception as e:
+                rep["write"] = "err " + type(e).__name__
+            out.append(rep)
+    finally:
+        shutil.rmtree(root, ignore_errors=True)
+    return out
+
+
+def impl_pack_stateful(a):
+    """ONE DiskObjectStore over a directory whose pack was damaged after the index was written: the same reads three times"""
+    import shutil
+    import tempfile
+    import warnings
+    warnings.simplefilter("ignore")
+    from dulwich.object_store import DiskObjectStore
+    out = []
+    root = tempfile.mkdtemp(prefix="pks", dir=a["scratch"])
+    try:
+        st = DiskObjectStore.init(os.path.join(root, "objects"))
+        _do_ingest(st, "addpack", unhx(a["pack"]))
+        st.close()
+        pdir = os.path.join(root, "objects", "pack")
+        pf = os.path.join(pdir, [f for f in os.listdir(pdir) if f.endswith(".pack")][0])
+        orig = open(pf, "rb").read()
+        os.chmod(pf, 0o644)
+        names = a["names"]
+
+        def probe(store, n):
+            res = []
+            nb = n.encode()
+            for what in ("get_raw", "getitem", "contains"):
+                try:
+                    if what == "get_raw":
+                        ty, raw = store.get_raw(nb)
+                        res.append(f"ok {ty} {hashlib.sha1(raw).hexdigest()[:16]}")
+                    elif what == "getitem":
+                        res.append("ok " + _independent_id(store[nb])[:16])
+                    else:
+                        res.append("in" if nb in store else "not-in")
+                except KeyError:
+                    res.append("err KeyError")
+                except Exception as e:
+                    res.append("err " + type(e).__name__)
+            return res
+        st0 = DiskObjectStore(os.path.join(root, "objects"))
+        undamaged = {n: probe(st0, n) for n in names}
+        st0.close()
+        for run in a["runs"]:
+            with open(pf, "wb") as f:
+                f.write(unhx(run["pack"]))
+            rep = {"undamaged": undamaged, "rounds": [], "fresh": {}}
+            st = DiskObjectStore(os.path.join(root, "objects"))
+            try:
+                for _round in range(3):
+                    rep["rounds"].append({n: probe(st, n) for n in names})
+            finally:
+                st.close()
+            for n in names:
+                fs = DiskObjectStore(os.path.join(root, "objects"))
+                try:
+                    rep["fresh"][n] = probe(fs, n)
+                finally:
+                    fs.close()
+            out.append(rep)
+        with open(pf, "wb") as f:
+            f.write(orig)
+    finally:
+        shutil.rmtree(root, ignore_errors=True)
+    return out
+
+
+def _stream_more_stateful(ctx, w):
+    rng = ctx.rng
+    # ---- Index objects
+    stream = "index-stateful"
+    for name, raw in _git_index_files(ctx)[:2 if not ctx.thorough else 4]:
+        damages = []
+        for pos in range(12, len(raw), 1 if ctx.thorough else 7):
+            damages.append((f"flip@{pos}", raw[:pos] + bytes([raw[pos] ^ (1 << rng.randrange(8))]) + raw[pos + 1:]))
+        for cut in (len(raw) - 1, len(raw) - 20, len(raw) - 25, len(raw) // 2):
+            damages.append((f"trunc@{cut}", raw[:cut]))
+        damages.append(("tail", raw + b"\0"))
+        runs = [{"content": hx(d), "mode": m} for _, d in damages for m in ("reread", "first")]
+        meta = [(tag, d, m) for tag, d in damages for m in ("reread", "first")]
+        rep = w.ask({"mod": MOD, "op": "index_stateful", "args": {"original": hx(raw), "runs": runs, "scratch": str(ctx.scratch)}}, timeout=120)
+        if "r" not in rep:
+            _process_failure(ctx, stream, {"file": f"index {name}"}, rep, "a long-lived Index object on a damaged index file", "index-stateful")
+            continue
+        for (tag, dmg, mode), r in zip(meta, rep["r"]):
+            case = {"file": f"index {name}", "damage": tag, "mode": mode, "content": hx(dmg), "original": hx(raw),
+                    "read": r["read"], "entries_after": r["entries_after"][:6], "pre": r["pre"][:6]}
+            ctx.count(stream, (name, tag, mode), True, f"{mode}:{r['read'].split(' ')[0]}:{'kept-pre-state' if r['entries_after'] == r['pre'] else 'CHANGED' if r['read'] != 'ok' else 'loaded'}")
+            if r["read"].startswith("err"):
+                if r["entries_after"] not in (r["pre"], r["good"]):
+                    ctx.oracle_fail(stream, case, f"Index.read() raised {r['read'][4:]} but the same Index object now holds entries of the damaged file "
+                                    f"({len(r['entries_after'])} entries; before the call {len(r['pre'])}): a later use of the object works on unverified data",
+                                    "index-object-keeps-entries-of-failed-read")
+                if r.get("write") == "ok" and isinstance(r.get("written"), list) and r["written"] not in (r["pre"], r["good"]):
+                    ctx.oracle_fail(stream, dict(case, written=r["written"][:6]), "write() through the Index object whose read() had failed wrote a clean, "
+                                    "verifying index file with the entries of the damaged file: the damage was laundered", "index-damage-laundered")
+    # ---- Pack objects behind a long-lived store: the pack file replaced under its index
+    stream = "pack-stateful"
+    A, B = _midx_objects()
+    pa = build_pack("a", [("full", 3, b) for b in A], level=0).data
+    pb = build_pack("b", [("full", 3, b) for b in B], level=0).data      # same count, same offsets, same lengths, other objects
+    names = [obj_name(3, b).hex() for b in A]
+    damages = [("undamaged", pa), ("trailer-flip", pa[:-1] + bytes([pa[-1] ^ 1])), ("other-pack-same-layout", pb),
+               ("other-pack-with-this-trailer", pb[:-20] + pa[-20:]), ("appended-byte", pa + b"\0"), ("truncated-trailer", pa[:-3]),
+               ("count+1", pa[:8] + struct.pack(">L", 5) + pa[12:]), ("body-flip", pa[:30] + bytes([pa[30] ^ 0x20]) + pa[31:])]
+    rep = w.ask({"mod": MOD, "op": "pack_stateful", "args": {"pack": hx(pa), "names": names, "runs": [{"pack": hx(d)} for _, d in damages],
+                                                             "scratch": str(ctx.scratch)}}, timeout=120)
+    if "r" not in rep:
+        _process_failure(ctx, stream, {"file": "pack"}, rep, "a long-lived store on a damaged pack", "pack-stateful")
+        return
+    for (tag, dmg), r in zip(damages, rep["r"]):
+        for ri, rnd in enumerate(r["rounds"]):
+            for n in names:
+                for got, fresh, und, what in zip(rnd[n], r["fresh"][n], r["undamaged"][n], ("get_raw", "getitem", "contains")):
+                    ok = got.startswith("err") or got == fresh or got == und
+                    ctx.count(stream, (tag, ri, n, what), True, f"{tag}:round{ri}:{what}:{'raises' if got.startswith('err') else 'same-as-fresh' if got == fresh else 'same-as-undamaged' if got == und else 'DIFFERENT'}")
+                    if not ok:
+                        ctx.oracle_fail(stream, {"damage": tag, "pack": hx(dmg), "original": hx(pa), "name": n, "round": ri, "op": what, "got": got,
+                                                 "fresh": fresh, "undamaged": und, "first_round": r["rounds"][0][n]},
+                                        f"access number {ri + 1} through the same store object: {what}({n[:12]}) returns {got} where a fresh store gives {fresh} "
+                                        f"and the undamaged pack {und}: the check that failed on the first access is skipped afterwards",
+                                        "pack-object-skips-check-after-failed-first-access")
+                    elif ri > 0 and not got.startswith("err") and r["rounds"][0][n][("get_raw", "getitem", "contains").index(what)].startswith("err") \
+                            and fresh.startswith("err"):
+                        ctx.oracle_fail(stream, {"damage": tag, "pack": hx(dmg), "original": hx(pa), "name": n, "round": ri, "op": what, "got": got,
+                                                 "fresh": fresh, "first_round": r["rounds"][0][n]},
+                                        f"{what}({n[:12]}) raised on the first access ({r['rounds'][0][n]}) and on a fresh store ({fresh}) but answers {got} on "
+                                        f"access number {ri + 1} through the same store object: the failed check is not repeated",
+                                        "pack-object-skips-check-after-failed-first-access")
 
 
 # ------------------------------------------------------------------------------------------------
@@ -3033,9 +3499,14 @@ def run(ctx: core.Ctx):
         # 7. decompression bombs
         with timed("bombs"):
             _stream_bombs(ctx)
+        # 5b. a one-shot fault at every interposed system call of every ingestion path, with the store options that add calls
+        with timed("faults"):
+            _stream_faults(ctx)
         # 7b. long-lived readers: state left behind by a FAILED read (packed-refs cache), then reads and rewrites through it
         with timed("refs-stateful"):
             _stream_refs_stateful(ctx, w)
+        with timed("index+pack-stateful"):
+            _stream_more_stateful(ctx, w)
         # 7c. damaged multi-pack-index through the store-level read paths and thin-pack delta resolution
         with timed("midx"):
             _stream_midx(ctx, w)
@@ -3062,6 +3533,18 @@ def search(ctx: core.Ctx):
                 return
             _stream_bombs(ctx)
             _stream_capped(ctx, w)
+            if ctx.oracle_failures:
+                return
+            groups: dict = {}
+            for tag, data, pre, ids, mode in attacks(rng):
+                g = groups.setdefault((tuple(pre), mode), ([], set()))
+                g[0].append((tag, data))
+                g[1].update(ids)
+            for (pre, mode), (cases, ids) in groups.items():
+                _stream_ingest(ctx, w, "attack", list(pre), cases, sorted(ids), stream="search.attack", pre_mode=mode)
+            _stream_refs_stateful(ctx, w)
+            _stream_more_stateful(ctx, w)
+            _stream_midx(ctx, w)
             if ctx.oracle_failures:
                 return
             for d in ctx.disagreements[:40]:
